@@ -299,9 +299,12 @@ pub enum HasherKind {
     Colliding,
     /// a `RandomState` instance handed in through `with_hasher`
     Keyed,
+    /// only four distinct hash values (id % 4): partial collisions
+    Coarse,
 }
 
-pub const HASHER_KINDS: [HasherKind; 5] = [
+pub const HASHER_KINDS: [HasherKind; 6] = [
+    HasherKind::Coarse,
     HasherKind::Random,
     HasherKind::Fixed,
     HasherKind::Xx,
@@ -323,6 +326,7 @@ pub enum HB {
     Fixed,
     Xx(u64),
     Colliding,
+    Coarse,
     #[cfg(feature = "std")]
     Keyed(std::collections::hash_map::RandomState),
 }
@@ -332,6 +336,7 @@ impl HB {
             HasherKind::Fixed => HB::Fixed,
             HasherKind::Xx => HB::Xx(0x9e37_79b9),
             HasherKind::Colliding => HB::Colliding,
+            HasherKind::Coarse => HB::Coarse,
             #[cfg(feature = "std")]
             HasherKind::Keyed | HasherKind::Random => {
                 HB::Keyed(std::collections::hash_map::RandomState::new())
@@ -351,6 +356,8 @@ pub enum HH {
     Sip(std::collections::hash_map::DefaultHasher),
     Xx(twox_hash::XxHash64),
     Zero,
+    /// sums the written bytes, finishes modulo 4
+    Mod4(u64),
 }
 impl Hasher for HH {
     #[inline]
@@ -360,6 +367,7 @@ impl Hasher for HH {
             HH::Sip(h) => h.finish(),
             HH::Xx(h) => h.finish(),
             HH::Zero => 0,
+            HH::Mod4(x) => x % 4,
         }
     }
     #[inline]
@@ -369,6 +377,11 @@ impl Hasher for HH {
             HH::Sip(h) => h.write(b),
             HH::Xx(h) => h.write(b),
             HH::Zero => {}
+            HH::Mod4(x) => {
+                for (i, c) in b.iter().enumerate() {
+                    *x = x.wrapping_add((*c as u64) << (8 * (i % 4)));
+                }
+            }
         }
     }
 }
@@ -383,6 +396,7 @@ impl BuildHasher for HB {
             HB::Fixed => HH::Xx(twox_hash::XxHash64::with_seed(0)),
             HB::Xx(s) => HH::Xx(twox_hash::XxHash64::with_seed(*s)),
             HB::Colliding => HH::Zero,
+            HB::Coarse => HH::Mod4(0),
             #[cfg(feature = "std")]
             HB::Keyed(r) => HH::Sip(r.build_hasher()),
         }
